@@ -131,6 +131,20 @@ def run_real(c):
                 f(w)
             except Exception:
                 pass
+    # other horizon objects with the same numbers (other kind, other container) are used with the same cutoffs in
+    # between: conversions are cached, and a cache must not hand one object's answer to another
+    if c.get("other"):
+        for rel2 in (not fh.is_relative, fh.is_relative):
+            try:
+                g = ForecastingHorizon(_build(c["raw"], c["form"]), is_relative=rel2)
+                for cc in (cut, 0, 1):
+                    for f in (g.to_absolute, g.to_relative, g.to_indexer, g.to_in_sample, g.is_all_in_sample):
+                        try:
+                            f(cc)
+                        except Exception:
+                            pass
+            except Exception:
+                pass
     parts = [
         "mk=" + _fh_str(fh),
         "rel=" + _try(lambda: fh.to_relative(cut), _fh_str),
@@ -351,6 +365,8 @@ def _gen_cases(tier, rng):
             vs.append(vs[0])
         cases.append({"raw": ["ints", vs], "form": rng.choice(INT_FORMS), "rel": rng.random() < 0.6, "rib": True,
                       "cut": 3, "start": 0, "enf": False})
+    for cc in cases:
+        cc.setdefault("other", rng.random() < 0.4)      # other horizon objects with the same numbers are used in between
     return cases
 
 
